@@ -159,6 +159,9 @@ pub struct RunCfg {
     pub checkpoints_at: Vec<usize>,
     /// the run counts as quiescent when the trace has not grown for this long
     pub stable_ms: u64,
+    /// acknowledgements are drained (try_complete_checkpoint) right after a trigger and otherwise
+    /// only at every n-th input, like a periodic `checkpoint_tick` (1 = after every input)
+    pub drain_every: usize,
 }
 
 /// H7 state is process-global: callers serialise runs with this lock.
@@ -202,7 +205,7 @@ pub fn run_contexts(p: &CProg, events: &[Event], cfg: &RunCfg) -> RunOut {
             orch.trigger_checkpoint();
             triggered += 1;
         }
-        if triggered > completed.len() as u64 {
+        if triggered > completed.len() as u64 && (cfg.checkpoints_at.contains(&i) || i % cfg.drain_every.max(1) == 0) {
             if let Ok(true) = orch.try_complete_checkpoint() {
                 completed.push(completed.len() as u64 + 1);
             }
